@@ -75,13 +75,15 @@ def random_scenario(rng, idx, allow_zero=True):
                 cfg_b=dict(segment_size_tx_initial=seg_b, segment_size_mru=mru_b), sends=sends)
 
 
-def execute(scn, max_steps=400000, actions=None, on_step=None):
+def execute(scn, max_steps=400000, actions=None, on_step=None, on_create=None):
     ''' Run one scenario.
     :param actions: optional list of dict(at=step index, fn=callable(run)) executed between scheduler steps
     :return: (run, result) with result in 'quiescent' | 'budget'
     '''
     run = PairRun(seed=scn['seed'], policy=scn['policy'], cfg_a=scn.get('cfg_a'), cfg_b=scn.get('cfg_b'),
                   capacity=scn.get('capacity'))
+    if on_create is not None:
+        on_create(run)
     counters = {'A': 0, 'B': 0}
     pending = []
     for item in scn['sends']:
